@@ -25,9 +25,14 @@ use ckb_chain::{LonelyBlock, VerifyResult};
 use ckb_db_schema::COLUMN_BLOCK_HEADER;
 use ckb_shared::block_status::BlockStatus;
 use ckb_store::ChainStore;
-use ckb_types::core::BlockView;
-use ckb_types::packed::Byte32;
+use ckb_chain_spec::consensus::{build_genesis_epoch_ext, Consensus, ConsensusBuilder, ProposalWindow};
+use ckb_dao_utils::genesis_dao_data;
+use ckb_test_chain_utils::{always_success_cell, create_always_success_tx};
+use ckb_types::bytes::Bytes;
+use ckb_types::core::{capacity_bytes, BlockBuilder, BlockView, Capacity, EpochNumberWithFraction, TransactionBuilder, TransactionView};
+use ckb_types::packed::{Byte32, CellInput, CellOutput, OutPoint};
 use ckb_types::prelude::*;
+use ckb_types::utilities::difficulty_to_compact;
 use ckb_types::U256;
 use std::collections::{HashMap, HashSet};
 use std::path::{Path, PathBuf};
@@ -130,6 +135,80 @@ impl Drop for Guard {
 // blocks
 // ------------------------------------------------------------------------------------------------
 
+/// What a replay needs to rebuild the consensus of a case (all of it is in the case label).
+#[derive(Clone, Debug)]
+enum Chain {
+    /// `make_consensus`: permanent difficulty, every epoch `el` blocks long
+    Flat { el: u64 },
+    /// real difficulty adjustment: genesis difficulty `d0`, genesis epoch `gl` blocks long, epoch
+    /// duration target `t` seconds. Without uncles the epoch length doubles at every boundary and the
+    /// next epoch's difficulty follows the previous epoch's duration (hash-rate estimate clamped to a
+    /// factor 2 either way): two branches diverging before a boundary carry different per-block work
+    /// after it.
+    Uneven { t: u64, gl: u64, d0: u64 },
+}
+
+impl Chain {
+    fn consensus(&self) -> Consensus {
+        match self {
+            Chain::Flat { el } => make_consensus(&NodeCfg { epoch_len: *el, with_pool: false, ..Default::default() }),
+            Chain::Uneven { t, gl, d0 } => uneven_consensus(*t, *gl, *d0),
+        }
+    }
+    fn label(&self) -> String {
+        match self {
+            Chain::Flat { el } => format!("el={el}"),
+            Chain::Uneven { t, gl, d0 } => format!("uneven=1 t={t} gl={gl} d0={d0}"),
+        }
+    }
+    fn node_cfg(&self) -> NodeCfg {
+        NodeCfg { epoch_len: match self { Chain::Flat { el } => *el, Chain::Uneven { gl, .. } => *gl }, with_pool: false, ..Default::default() }
+    }
+}
+
+/// node.rs `make_consensus` with the dynamic difficulty adjustment switched on
+fn uneven_consensus(t: u64, gl: u64, d0: u64) -> Consensus {
+    let (_, _, always_success_script) = always_success_cell();
+    let tx = create_always_success_tx();
+    let cells: Vec<TransactionView> = (0..4u64)
+        .map(|i| {
+            TransactionBuilder::default()
+                .input(CellInput::new(OutPoint::null(), 0))
+                .output(CellOutput::new_builder().capacity(capacity_bytes!(50_000)).lock(always_success_script.clone()).build())
+                .output_data(Bytes::from(i.to_le_bytes().to_vec()))
+                .build()
+        })
+        .collect();
+    let mut all: Vec<&TransactionView> = vec![&tx];
+    all.extend(cells.iter());
+    let dao = genesis_dao_data(all).unwrap();
+    let compact = difficulty_to_compact(U256::from(d0));
+    let genesis = BlockBuilder::default()
+        .dao(dao)
+        .compact_target(compact)
+        .epoch(EpochNumberWithFraction::new_unchecked(0, 0, 0))
+        .transaction(tx)
+        .transactions(cells)
+        .build();
+    let epoch_reward = capacity_bytes!(1_917_808);
+    let epoch0 = build_genesis_epoch_ext(epoch_reward, compact, gl, t, (1, 40));
+    ConsensusBuilder::new(genesis, epoch0)
+        .initial_primary_epoch_reward(epoch_reward)
+        .epoch_duration_target(t)
+        .permanent_difficulty_in_dummy(false)
+        .tx_proposal_window(ProposalWindow(2, 10))
+        .cellbase_maturity(EpochNumberWithFraction::new(0, 0, 1))
+        .build()
+}
+
+/// Timestamp of block `id` on `parent`: "fast" = a few ms after the parent (what the builder would
+/// choose by itself), "slow" = 40..120 s after it — a deterministic function of (parent, id, slow),
+/// so that a replay (which gets the slow ids from the case label) rebuilds the same block.
+fn block_ts(parent: &Blk, id: usize, slow: bool) -> u64 {
+    let p = parent.block.timestamp();
+    if slow { p + (40 + (id as u64 * 37) % 81) * 1000 } else { p + 1 + id as u64 % 3 }
+}
+
 #[derive(Clone, Copy, PartialEq, Eq, Debug)]
 enum Kind {
     Valid,
@@ -213,8 +292,7 @@ fn genesis_blk(consensus: &ckb_chain_spec::consensus::Consensus) -> Blk {
 /// parent, so a sibling can still be built in place): `Tweak::Timestamp` with the value the builder
 /// would have chosen anyway. Used for blocks without children (no store is ever needed at their tip;
 /// each new branch store costs a RocksDB open) and as the base of non-contextually invalid blocks.
-fn build_detached(b: &mut ChainBuilder, parent: &Blk, salt: u64) -> BlockView {
-    let ts = parent.block.timestamp() + 1 + salt % 3;
+fn build_detached(b: &mut ChainBuilder, parent: &Blk, salt: u64, ts: u64) -> BlockView {
     b.build(&parent.hash, &BlockSpec { salt, tweak: Tweak::Timestamp(ts), ..Default::default() })
 }
 
@@ -223,8 +301,8 @@ fn build_detached(b: &mut ChainBuilder, parent: &Blk, salt: u64) -> BlockView {
 /// (`Tweak::TxRoot` of node.rs goes through `packed::Block::into_view`, which recomputes the roots,
 /// so it yields a valid block.) The corrupted block is registered in the builder so that children
 /// can be built on it.
-fn build_nc_invalid(b: &mut ChainBuilder, parent: &Blk, salt: u64) -> BlockView {
-    let v = build_detached(b, parent, salt);
+fn build_nc_invalid(b: &mut ChainBuilder, parent: &Blk, salt: u64, ts: u64) -> BlockView {
+    let v = build_detached(b, parent, salt, ts);
     let raw = v.data().header().raw().as_builder().transactions_root(Byte32::zero()).build();
     let header = v.data().header().as_builder().raw(raw).build();
     let block = v.data().as_builder().header(header).build().into_view_without_reset_header();
@@ -237,13 +315,18 @@ fn build_nc_invalid(b: &mut ChainBuilder, parent: &Blk, salt: u64) -> BlockView 
 /// `leaf`: the caller knows that nothing will be built on this block (only an optimisation: the
 /// block is byte-identical either way).
 fn build_blk(b: &mut ChainBuilder, id: usize, parent: &Blk, kind: Kind, leaf: bool) -> Blk {
+    build_blk_paced(b, id, parent, kind, leaf, false)
+}
+
+fn build_blk_paced(b: &mut ChainBuilder, id: usize, parent: &Blk, kind: Kind, leaf: bool, slow: bool) -> Blk {
     let fdl = b.consensus.finalization_delay_length();
+    let ts = block_ts(parent, id, slow);
     let block = match kind {
-        Kind::Nc => build_nc_invalid(b, parent, id as u64),
-        Kind::Valid if leaf => build_detached(b, parent, id as u64),
+        Kind::Nc => build_nc_invalid(b, parent, id as u64, ts),
+        Kind::Valid if leaf => build_detached(b, parent, id as u64, ts),
         _ => {
             let tweak = tweak_for(kind, id, parent.num + 1, fdl);
-            b.build(&parent.hash, &BlockSpec { salt: id as u64, tweak, ..Default::default() })
+            b.build(&parent.hash, &BlockSpec { salt: id as u64, tweak, timestamp: Some(ts), ..Default::default() })
         }
     };
     Blk {
@@ -278,6 +361,22 @@ struct StateView {
     inv: Vec<usize>,
 }
 
+fn state_line(cbs: &[(usize, Verdict)], v: &StateView) -> String {
+    let cb = if cbs.is_empty() { "-".to_string() } else { cbs.iter().map(|(i, v)| format!("{}:{}", i, v.as_str())).collect::<Vec<_>>().join(",") };
+    let ext = if v.ext.is_empty() { "-".to_string() } else { v.ext.iter().map(|(i, t)| format!("{i}:{t}")).collect::<Vec<_>>().join(",") };
+    format!(
+        "cb={} tip={} td={} orph={} stored={} ext={} ver={} inv={}",
+        cb,
+        v.tip.map(|t| t.to_string()).unwrap_or("?".into()),
+        v.td,
+        v.orph,
+        show_ids(&v.stored),
+        ext,
+        show_ids(&v.ver),
+        show_ids(&v.inv)
+    )
+}
+
 fn show_ids(v: &[usize]) -> String {
     if v.is_empty() { "-".into() } else { v.iter().map(|i| i.to_string()).collect::<Vec<_>>().join(",") }
 }
@@ -299,6 +398,13 @@ struct CaseRun {
     had_tie: bool,
     arrival: Vec<usize>,
     threads: usize,
+    /// "gen" | "uneven" | "expiry" (statistics only)
+    family: &'static str,
+    /// ids that had an ext after the previous op
+    last_ext: HashSet<usize>,
+    /// ids that were in the orphan pool after some `expire` op of this case and are still there
+    survivors: HashSet<usize>,
+    had_multi: bool,
 }
 
 impl CaseRun {
@@ -334,7 +440,19 @@ impl CaseRun {
             had_tie: false,
             arrival: vec![],
             threads: threads.clamp(1, 3),
+            family: "gen",
+            last_ext: HashSet::from([0]),
+            survivors: HashSet::new(),
+            had_multi: false,
         }
+    }
+
+    /// ids currently in the orphan pool (probed per declared id)
+    fn pool_ids(&self) -> Vec<usize> {
+        let node = self.node();
+        let mut v: Vec<usize> = self.blks.iter().filter(|b| node.controller().get_orphan_block(node.store(), &b.hash).is_some()).map(|b| b.id).collect();
+        v.sort();
+        v
     }
 
     fn node(&self) -> &Node {
@@ -496,7 +614,9 @@ impl CaseRun {
         }
     }
 
-    fn oracle(&mut self, out: &mut Out, v: &StateView, serialised: bool, what: &str) {
+    /// returns (old tip, new tip, reorg) when the tip changed
+    fn oracle(&mut self, out: &mut Out, v: &StateView, serialised: bool, what: &str) -> Option<(usize, usize, bool)> {
+        let mut moved = None;
         let valid_ids: Vec<usize> = self.blks.iter().map(|b| b.id).filter(|i| self.valid(*i)).collect();
         let m = valid_ids.iter().map(|i| self.total_work(*i)).max().unwrap();
         match v.tip {
@@ -526,9 +646,36 @@ impl CaseRun {
                         if serialised && v.td <= ptd {
                             out.oracle_fail("tip-moved-not-heavier", &format!("{what}: tip {ptip} (td {ptd}) -> {tip} (td {})", v.td));
                         }
-                        if !self.is_ancestor_or_self(ptip, tip) {
+                        let reorg = !self.is_ancestor_or_self(ptip, tip);
+                        if reorg {
                             out.count("reorg");
                             self.had_reorg = true;
+                            if self.get(tip).num >= self.get(ptip).num + 2 {
+                                out.count("reorg-verifies-multi-above-tip");
+                                // precise lower bound: blocks of the new chain above the old tip's
+                                // height that were already stored with an (unverified) ext before
+                                let onum = self.get(ptip).num;
+                                let mut x = tip;
+                                let mut stored_above = 0;
+                                while x != 0 && self.get(x).num > onum {
+                                    if self.last_ext.contains(&x) {
+                                        stored_above += 1;
+                                    }
+                                    x = self.get(x).parent;
+                                }
+                                if serialised && stored_above >= 1 {
+                                    out.count("reorg-over-stored-unverified-above-tip");
+                                    self.had_multi = true;
+                                }
+                            }
+                        }
+                        moved = Some((ptip, tip, reorg));
+                    } else if serialised {
+                        // a block above the tip's height got an ext although the tip did not move: a
+                        // branch that is longer than the main chain but not heavier
+                        let tnum = self.get(tip).num;
+                        if v.ext.iter().any(|(i, _)| !self.last_ext.contains(i) && self.get(*i).num > tnum) {
+                            out.count("longer-but-lighter-stored");
                         }
                     }
                 }
@@ -549,6 +696,8 @@ impl CaseRun {
                 out.oracle_fail("ext-td-wrong", &format!("{what}: block {id} ext.total_difficulty={t}, work along its path is {want}"));
             }
         }
+        self.last_ext = v.ext.iter().map(|(i, _)| *i).collect();
+        moved
     }
 
     /// some block that cannot pass verification (itself or an ancestor is invalid in the declared
@@ -626,22 +775,108 @@ impl CaseRun {
             }
         }
         let v = self.read_state(out);
-        let cb = if cbs.is_empty() { "-".to_string() } else { cbs.iter().map(|(i, v)| format!("{}:{}", i, v.as_str())).collect::<Vec<_>>().join(",") };
-        let ext = if v.ext.is_empty() { "-".to_string() } else { v.ext.iter().map(|(i, t)| format!("{i}:{t}")).collect::<Vec<_>>().join(",") };
-        let line = format!(
-            "cb={} tip={} td={} orph={} stored={} ext={} ver={} inv={}",
-            cb,
-            v.tip.map(|t| t.to_string()).unwrap_or("?".into()),
-            v.td,
-            v.orph,
-            show_ids(&v.stored),
-            ext,
-            show_ids(&v.ver),
-            show_ids(&v.inv)
-        );
+        let line = state_line(&cbs, &v);
         let op = format!("deliver {} {}", id, show_ids(&hint));
         out.op(&op, &line);
-        self.oracle(out, &v, true, &op);
+        let moved = self.oracle(out, &v, true, &op);
+        // orphans that survived an `expire` and are connected now
+        let released: Vec<usize> = events.iter().filter(|(i, v)| *i != id && matches!(v, Verdict::New | Verdict::Known)).map(|(i, _)| *i).collect();
+        if released.iter().any(|i| self.survivors.contains(i)) {
+            out.count("connect-after-expire-survivor");
+        }
+        for i in &released {
+            self.survivors.remove(i);
+        }
+        if let Some((_, tip, true)) = moved {
+            if tip != id && released.contains(&tip) {
+                out.count("reorg-by-released-orphans");
+            }
+        }
+    }
+
+    /// `expire`: the chain-service thread runs the real `clean_expired_orphans` (hook: on demand
+    /// instead of the 60 s ticker), fenced by a synchronous genesis delivery.
+    fn expire(&mut self, out: &mut Out) {
+        if self.dead {
+            return;
+        }
+        out.count("expire-op");
+        if self.prev.is_none() {
+            let g = self.get(0).work;
+            self.prev = Some((0, g));
+        }
+        let before = self.read_state(out);
+        let pool0 = self.pool_ids();
+        let first = self.log.lock().unwrap().events.len();
+        let fired = self.node().controller().verif_clean_expired_orphans();
+        let fence = LonelyBlock { block: self.get(0).block.clone(), switch: None, verify_callback: None };
+        let alive = fired && self.node().controller().verif_process_lonely_block_sync(fence);
+        if !alive {
+            return self.hang(out, "expire", "the chain service did not take the request");
+        }
+        if let Err(e) = self.wait_quiescent() {
+            return self.hang(out, "expire", &e);
+        }
+        let mut cbs: Vec<(usize, Verdict)> = self.log.lock().unwrap().events[first..].to_vec();
+        cbs.sort();
+        let v = self.read_state(out);
+        let pool1 = self.pool_ids();
+        out.op("expire", &format!("{} pool={}", state_line(&cbs, &v), show_ids(&pool1)));
+        // ---- oracle of the retention rule, on the real blocks' epochs
+        let horizon = ckb_chain::VERIF_ORPHAN_EXPIRED_EPOCH;
+        let tip_epoch = before.tip.map(|t| self.get(t).epoch).unwrap_or(0);
+        let in0: HashSet<usize> = pool0.iter().copied().collect();
+        let in1: HashSet<usize> = pool1.iter().copied().collect();
+        let mut removed = 0;
+        let mut legit_any = false;
+        let mut gap = false;
+        for b in &pool0 {
+            // the pooled ancestor whose parent is not pooled
+            let mut root = *b;
+            while in0.contains(&self.get(root).parent) && root != 0 {
+                root = self.get(root).parent;
+            }
+            let legit = self.get(root).epoch + horizon < tip_epoch;
+            legit_any |= legit;
+            // retained by the epoch rule although the tip's NUMBER is beyond epoch + horizon: the
+            // zone in which a number/epoch mix-up shows
+            gap |= !legit && self.get(root).epoch + horizon < before.tip.map(|t| self.get(t).num).unwrap_or(0);
+            match (legit, in1.contains(b)) {
+                (false, false) => out.oracle_fail(
+                    "expired-too-early",
+                    &format!("expire removed orphan {b} (epoch {}, pool root {root} of epoch {}) although the tip {:?} is in epoch {tip_epoch} (horizon {horizon} epochs)", self.get(*b).epoch, self.get(root).epoch, before.tip),
+                ),
+                (true, true) => out.oracle_fail(
+                    "not-expired",
+                    &format!("expire kept orphan {b} (pool root {root} of epoch {}) although the tip is in epoch {tip_epoch} (horizon {horizon} epochs)", self.get(root).epoch),
+                ),
+                (true, false) => {
+                    // legitimately forgotten: no longer part of what the node has been given
+                    self.delivered.remove(b);
+                    self.survivors.remove(b);
+                    removed += 1;
+                }
+                (false, true) => {
+                    self.survivors.insert(*b);
+                }
+            }
+        }
+        if let Some(x) = pool1.iter().find(|b| !in0.contains(b)) {
+            out.oracle_fail("expire-touched-chain", &format!("block {x} entered the orphan pool during an expire"));
+        }
+        if removed > 0 {
+            out.count("expire-removed");
+        }
+        if gap {
+            out.count("expire-retained-though-number-beyond-horizon");
+        }
+        if !pool0.is_empty() && !legit_any {
+            out.count("expire-nothing-legit");
+        }
+        if before.tip != v.tip || before.td != v.td || before.ext != v.ext || before.ver != v.ver {
+            out.oracle_fail("expire-touched-chain", &format!("expire changed the chain: tip {:?}->{:?} td {}->{} exts {}->{}", before.tip, v.tip, before.td, v.td, before.ext.len(), v.ext.len()));
+        }
+        self.oracle(out, &v, true, "expire");
     }
 
     fn burst(&mut self, out: &mut Out, ids: &[usize]) {
@@ -706,7 +941,7 @@ impl CaseRun {
         }
         let v = self.read_state(out);
         out.op(&op, &format!("td={}", v.td));
-        self.oracle(out, &v, false, &op);
+        let _ = self.oracle(out, &v, false, &op);
     }
 
     /// true when the case is non-trivial by the stated rule
@@ -716,6 +951,18 @@ impl CaseRun {
         let m_valid = self.blks.iter().filter(|b| self.valid(b.id)).map(|b| self.total_work(b.id)).max().unwrap_or(0);
         let m_all = self.blks.iter().filter(|b| self.connected(b.id)).map(|b| self.total_work(b.id)).max().unwrap_or(0);
         let invalid_on_heaviest = m_all > m_valid;
+        let works: HashSet<u128> = self.blks.iter().map(|b| b.work).collect();
+        if works.len() >= 2 {
+            out.count("uneven-distinct-work");
+        }
+        if self.had_multi {
+            out.count("case-with-reorg-verifying-multi-above-tip");
+        }
+        match self.family {
+            "uneven" => out.count("uneven-case"),
+            "expiry" => out.count("expiry-case"),
+            _ => {}
+        }
         if !self.dead && (self.had_reorg || self.had_tie || invalid_on_heaviest) {
             let mut h = 0xcbf29ce484222325u64;
             let mut eat = |x: u64| {
@@ -756,6 +1003,7 @@ fn header_stored(node: &Node, h: &Byte32) -> bool {
 
 fn selftest(base: &Path) {
     assert_eq!(u256_dec(&U256::from(1234u64)), "1234", "U256 Display is not decimal");
+    assert_eq!(ckb_chain::VERIF_ORPHAN_EXPIRED_EPOCH, 6, "the orphan retention horizon EXPIRED_EPOCH changed: the model's generated constant and this oracle assume 6");
     let cfg = NodeCfg { epoch_len: 4, with_pool: false, ..Default::default() };
     let consensus = make_consensus(&cfg);
     let fdl = consensus.finalization_delay_length();
@@ -796,7 +1044,7 @@ fn selftest(base: &Path) {
     for parent in [height as usize - 1, height as usize] {
         salt += 1;
         let pb = Blk { id: 0, parent: 0, hash: chain[parent].hash(), num: chain[parent].number(), epoch: 0, work: 0, kind: Kind::Valid, block: Arc::new(chain[parent].clone()) };
-        let bad = build_nc_invalid(&mut b, &pb, salt);
+        let bad = build_nc_invalid(&mut b, &pb, salt, pb.block.timestamp() + 1);
         let r = node.process(&bad);
         assert!(r.is_err(), "selftest: TxRoot block must fail, got {r:?}");
         assert_eq!(node.shared.get_block_status(&bad.hash()), BlockStatus::BLOCK_INVALID, "selftest: TxRoot block must be marked BLOCK_INVALID");
@@ -805,7 +1053,7 @@ fn selftest(base: &Path) {
     }
     // the detached way of building (used for leaves) yields the very same valid block
     let pb = Blk { id: 0, parent: 0, hash: tip.clone(), num: height, epoch: 0, work: 0, kind: Kind::Valid, block: Arc::new(chain[height as usize].clone()) };
-    let d = build_detached(&mut b, &pb, 77);
+    let d = build_detached(&mut b, &pb, 77, pb.block.timestamp() + 1 + 77 % 3);
     let n = b.build(&tip, &BlockSpec { salt: 77, ..Default::default() });
     assert_eq!(d.hash(), n.hash(), "selftest: detached building must give the same block");
     assert_eq!(node.process(&d), Ok(true), "selftest: detached-built block must be valid");
@@ -978,6 +1226,52 @@ fn generate(out: &mut Out, opts: &Opts, builder_base: &Path, node_base: &Path) {
             }
         }
     }
+    let t_gen = t0.elapsed();
+    // ---- family "uneven": real difficulty adjustment, branches of different per-block work
+    let (utrees, uorders) = if opts.thorough() { (40 * opts.scale, 6) } else { (10 * opts.scale, 3) };
+    for tno in 0..utrees {
+        let tb = Instant::now();
+        let tree = gen_uneven_tree(&mut rng, &builder_base.join(format!("u{tno}")));
+        t_build += tb.elapsed();
+        for ono in 0..uorders {
+            let order = uneven_order(&mut rng, &tree);
+            let burst = rng.chance(3, 10);
+            let threads = rng.range(1, 3) as usize;
+            let label = format!(
+                "{} mode={} thr={} fam=uneven shape={} tree={} ord={} n={} slow={}",
+                tree.chain.label(),
+                if burst { "burst" } else { "ser" },
+                threads,
+                tree.shape,
+                tno,
+                ono,
+                tree.blks.len() - 1,
+                show_ids(&tree.slow)
+            );
+            let ops: Vec<Op> = if burst { vec![Op::Burst(order)] } else { order.into_iter().map(Op::Deliver).collect() };
+            if tree.tie {
+                out.count("uneven-equal-work-different-length");
+            }
+            run_case(out, node_base, &label, &tree.chain, threads, "uneven", &tree.blks, &ops);
+            cases += 1;
+        }
+    }
+    let t_uneven = t0.elapsed() - t_gen;
+    // ---- family "expiry": orphan chains held in the pool while `expire` fires
+    let (etrees, eorders) = if opts.thorough() { (15 * opts.scale, 3) } else { (4 * opts.scale, 2) };
+    for tno in 0..etrees {
+        let tb = Instant::now();
+        let tree = gen_expiry_tree(&mut rng, &builder_base.join(format!("e{tno}")));
+        t_build += tb.elapsed();
+        for ono in 0..eorders {
+            let ops = expiry_ops(&mut rng, &tree);
+            let label = format!("{} mode=ser thr=1 fam=expiry tree={} ord={} n={}", tree.chain.label(), tno, ono, tree.blks.len() - 1);
+            run_case(out, node_base, &label, &tree.chain, 1, "expiry", &tree.blks, &ops);
+            cases += 1;
+        }
+    }
+    let t_expiry = t0.elapsed() - t_gen - t_uneven;
+    eprintln!("C01: general {:.1}s, uneven {:.1}s, expiry {:.1}s", t_gen.as_secs_f64(), t_uneven.as_secs_f64(), t_expiry.as_secs_f64());
     eprintln!(
         "C01: {} cases in {:.1}s (building blocks {:.1}s, node start {:.1}s, deliveries {:.1}s, node stop {:.1}s)",
         cases,
@@ -987,6 +1281,332 @@ fn generate(out: &mut Out, opts: &Opts, builder_base: &Path, node_base: &Path) {
         t_ops.as_secs_f64(),
         t_stop.as_secs_f64()
     );
+}
+
+enum Op {
+    Deliver(usize),
+    Burst(Vec<usize>),
+    Expire,
+}
+
+fn run_case(out: &mut Out, node_base: &Path, label: &str, chain: &Chain, threads: usize, family: &'static str, blks: &[Blk], ops: &[Op]) {
+    let case = out.begin_case(label);
+    let mut run = CaseRun::start(&node_base.join(format!("c{case}")), &chain.consensus(), &chain.node_cfg(), threads);
+    run.family = family;
+    for b in blks {
+        run.declare(out, b.clone());
+    }
+    for op in ops {
+        match op {
+            Op::Deliver(id) => run.deliver(out, *id),
+            Op::Burst(ids) => run.burst(out, ids),
+            Op::Expire => run.expire(out),
+        }
+        if run.dead {
+            break;
+        }
+    }
+    run.finish(out);
+}
+
+fn path_work(blks: &[Blk], mut id: usize) -> u128 {
+    let mut s = 0;
+    loop {
+        s += blks[id].work;
+        if id == 0 {
+            return s;
+        }
+        id = blks[id].parent;
+    }
+}
+
+/// random merge of two sequences, each keeping its own order
+fn merge_keep_order(rng: &mut Rng, a: &[usize], b: &[usize]) -> Vec<usize> {
+    let (mut i, mut j) = (0, 0);
+    let mut v = vec![];
+    while i < a.len() || j < b.len() {
+        let take_a = j >= b.len() || (i < a.len() && rng.below((a.len() - i + b.len() - j) as u64) < (a.len() - i) as u64);
+        if take_a {
+            v.push(a[i]);
+            i += 1;
+        } else {
+            v.push(b[j]);
+            j += 1;
+        }
+    }
+    v
+}
+
+fn add_dups(rng: &mut Rng, order: &mut Vec<usize>, pct_lo: u64, pct_hi: u64) {
+    let dups = order.len() as u64 * rng.range(pct_lo, pct_hi) / 100;
+    for _ in 0..dups {
+        let i = rng.below(order.len() as u64) as usize;
+        let id = order[i];
+        let pos = if rng.chance(7, 10) { rng.range(i as u64 + 1, order.len() as u64) } else { rng.range(0, order.len() as u64) } as usize;
+        order.insert(pos, id);
+    }
+}
+
+// ---- family "uneven" ------------------------------------------------------------------------------
+
+/// Main chain M (ids 1..=h, fast blocks: heavy after the epoch boundary) and a fork F leaving it
+/// before the boundary with slow blocks (light after the boundary).
+///   shape a: F grows LONGER than M while still LIGHTER, then overtakes it and is extended further
+///   shape b: F stops exactly at equal total work (different lengths), when the numbers allow it
+///   shape c: F ends longer than M but lighter
+/// `m2`: M extended again after F (may take the tip back).
+struct UnevenTree {
+    chain: Chain,
+    blks: Vec<Blk>,
+    slow: Vec<usize>,
+    prefix: Vec<usize>,
+    m: Vec<usize>,
+    f: Vec<usize>,
+    m2: Vec<usize>,
+    shape: char,
+    /// shape b reached: the fork ends at exactly the main chain's total work, with a different length
+    tie: bool,
+}
+
+fn gen_uneven_tree(rng: &mut Rng, bdir: &Path) -> UnevenTree {
+    let shape = match rng.below(20) {
+        0..=10 => 'a',
+        11..=14 => 'b',
+        _ => 'c',
+    };
+    // shape b wants exact multiples: with gl = 3, t = 48 the fully clamped slow fork has exactly a
+    // quarter of the main chain's per-block work (1000000 : 250000)
+    let (gl, t) = if shape == 'b' { (3, 48) } else { (rng.range(2, 4), *rng.pick(&[48u64, 48, 96])) };
+    let chain = Chain::Uneven { t, gl, d0: 1_000_000 };
+    let consensus = chain.consensus();
+    let mut builder = ChainBuilder::new(consensus.clone(), bdir);
+    builder.max_branch_stores = 4;
+    // without uncles the epoch lengths are gl, 2gl, 4gl: boundaries (first height of the next epoch)
+    let bnd = if shape == 'b' || rng.chance(3, 5) { gl } else { 3 * gl };
+    let fp = if shape == 'b' { 0 } else { rng.range(bnd.saturating_sub(3), bnd - 2) as usize };
+    let h = (bnd - 1 + rng.range(1, 3)) as usize;
+    let mut blks = vec![genesis_blk(&consensus)];
+    let mut slow = vec![];
+    for id in 1..=h {
+        let p = blks[id - 1].clone();
+        blks.push(build_blk_paced(&mut builder, id, &p, Kind::Valid, false, false));
+    }
+    let prefix: Vec<usize> = (1..=fp).collect();
+    let m: Vec<usize> = (fp + 1..=h).collect();
+    let td_m = path_work(&blks, h);
+    let slow_after = rng.chance(1, 3);
+    let c_len = h as u64 + rng.range(2, 4);
+    let mut f = vec![];
+    let mut extra: Option<u64> = None;
+    let mut tie = false;
+    let mut parent = fp;
+    loop {
+        let id = blks.len();
+        let hf = blks[parent].num + 1;
+        let is_slow = hf < bnd || (slow_after && rng.chance(2, 3));
+        let p = blks[parent].clone();
+        blks.push(build_blk_paced(&mut builder, id, &p, Kind::Valid, false, is_slow));
+        if is_slow {
+            slow.push(id);
+        }
+        f.push(id);
+        parent = id;
+        let td_f = path_work(&blks, id);
+        if f.len() >= 40 {
+            break;
+        }
+        match shape {
+            'c' => {
+                if hf >= c_len || td_f + blks[id].work >= td_m {
+                    break;
+                }
+            }
+            _ => {
+                if shape == 'b' && td_f == td_m {
+                    tie = true;
+                    break;
+                }
+                if td_f > td_m && extra.is_none() {
+                    extra = Some(if shape == 'a' { rng.range(1, 3) } else { rng.range(0, 1) });
+                }
+                if let Some(e) = extra {
+                    if e == 0 {
+                        break;
+                    }
+                    extra = Some(e - 1);
+                }
+            }
+        }
+    }
+    let mut m2 = vec![];
+    if shape != 'c' && rng.chance(2, 5) {
+        let mut parent = h;
+        for _ in 0..rng.range(1, 2) {
+            let id = blks.len();
+            let p = blks[parent].clone();
+            blks.push(build_blk_paced(&mut builder, id, &p, Kind::Valid, false, false));
+            m2.push(id);
+            parent = id;
+        }
+    }
+    drop(builder);
+    let _ = std::fs::remove_dir_all(bdir);
+    UnevenTree { chain, blks, slow, prefix, m, f, m2, shape, tie }
+}
+
+fn uneven_order(rng: &mut Rng, t: &UnevenTree) -> Vec<usize> {
+    let h = t.blks[*t.m.last().unwrap()].num;
+    let cat = |parts: &[&[usize]]| -> Vec<usize> { parts.iter().flat_map(|p| p.iter().copied()).collect() };
+    let mut order = match rng.below(6) {
+        // M, then F in order: F's blocks above M's tip are stored unverified until F is heavier
+        0 | 1 => cat(&[&t.prefix, &t.m, &t.f, &t.m2]),
+        // the same with one F block near M's tip height arriving last of F: the rest waits as orphans
+        2 => {
+            let hi = t.f.iter().position(|i| t.blks[*i].num > h).unwrap_or(t.f.len() - 1);
+            let lo = hi.saturating_sub(1);
+            let g = rng.range(lo as u64, (hi + 1).min(t.f.len() - 1) as u64) as usize;
+            let mut f: Vec<usize> = t.f.clone();
+            let x = f.remove(g);
+            f.push(x);
+            cat(&[&t.prefix, &t.m, &f, &t.m2])
+        }
+        // M and F interleaved
+        3 => {
+            let mf = merge_keep_order(rng, &t.m, &t.f);
+            cat(&[&t.prefix, &mf, &t.m2])
+        }
+        // F first (it is the tip), then the heavier M
+        4 => cat(&[&t.prefix, &t.f, &t.m, &t.m2]),
+        // anything
+        _ => {
+            let mut all = cat(&[&t.prefix, &t.m, &t.f, &t.m2]);
+            if rng.chance(1, 2) {
+                rng.shuffle(&mut all);
+            } else {
+                all.reverse();
+            }
+            all
+        }
+    };
+    add_dups(rng, &mut order, 0, 15);
+    order
+}
+
+// ---- family "expiry" ------------------------------------------------------------------------------
+
+/// Main chain 1..=L (permanent difficulty, short epochs) and two orphan chains whose first block
+/// (`pa`, `pb`: children of an early / a late main block) is delivered late or never: chain `a` sits
+/// in early epochs, chain `b` in late ones.
+struct ExpiryTree {
+    chain: Chain,
+    blks: Vec<Blk>,
+    main: Vec<usize>,
+    pa: usize,
+    a: Vec<usize>,
+    pb: usize,
+    b: Vec<usize>,
+}
+
+fn gen_expiry_tree(rng: &mut Rng, bdir: &Path) -> ExpiryTree {
+    let el = rng.range(2, 3);
+    let chain = Chain::Flat { el };
+    let consensus = chain.consensus();
+    let mut builder = ChainBuilder::new(consensus.clone(), bdir);
+    builder.max_branch_stores = 4;
+    let l = rng.range(25, 30) as usize;
+    let mut blks = vec![genesis_blk(&consensus)];
+    for id in 1..=l {
+        let p = blks[id - 1].clone();
+        blks.push(build_blk(&mut builder, id, &p, Kind::Valid, false));
+    }
+    let mut side = |blks: &mut Vec<Blk>, at: usize, k: u64| -> (usize, Vec<usize>) {
+        let mut parent = at;
+        let mut ids = vec![];
+        for i in 0..=k {
+            let id = blks.len();
+            let p = blks[parent].clone();
+            blks.push(build_blk(&mut builder, id, &p, Kind::Valid, i == k));
+            ids.push(id);
+            parent = id;
+        }
+        (ids[0], ids[1..].to_vec())
+    };
+    let at_a = rng.range(1, 3) as usize;
+    let ka = rng.range(8, 14);
+    let (pa, a) = side(&mut blks, at_a, ka);
+    let at_b = l - rng.range(3, 8) as usize;
+    let kb = rng.range(3, 8);
+    let (pb, b) = side(&mut blks, at_b, kb);
+    drop(builder);
+    let _ = std::fs::remove_dir_all(bdir);
+    ExpiryTree { chain, blks, main: (1..=l).collect(), pa, a, pb, b }
+}
+
+fn expiry_ops(rng: &mut Rng, t: &ExpiryTree) -> Vec<Op> {
+    let el = match t.chain {
+        Chain::Flat { el } => el,
+        _ => unreachable!(),
+    } as usize;
+    let l = t.main.len();
+    let scramble = |rng: &mut Rng, v: &[usize]| -> Vec<usize> {
+        let mut v = v.to_vec();
+        match rng.below(3) {
+            0 => {}
+            1 => v.reverse(),
+            _ => rng.shuffle(&mut v),
+        }
+        v
+    };
+    let ea = t.blks[t.a[0]].epoch as usize;
+    let mut ops: Vec<usize> = vec![]; // usize::MAX = expire
+    const EXPIRE: usize = usize::MAX;
+    // 1. a few main blocks, chain a (and sometimes chain b) as orphans; nothing may expire
+    let m1 = rng.range(3, 6) as usize;
+    let b_early = rng.chance(1, 2);
+    let mut early = scramble(rng, &t.a);
+    if b_early {
+        let sb = scramble(rng, &t.b);
+        early = merge_keep_order(rng, &early, &sb);
+    }
+    ops.extend(merge_keep_order(rng, &t.main[..m1], &early));
+    ops.push(EXPIRE);
+    // 2. up to a height whose epoch is still within the horizon of chain a (but whose NUMBER is far
+    //    beyond its epoch number + horizon): still nothing may expire
+    let last_in_horizon = ((ea + 7) * el - 1).min(l - 3);
+    let m2 = if m1 < last_in_horizon { rng.range((m1 + 1).max((ea + 8).min(last_in_horizon)) as u64, last_in_horizon as u64) as usize } else { m1 };
+    ops.extend(&t.main[m1..m2]);
+    if rng.chance(1, 3) {
+        ops.push(*rng.pick(&t.a));
+    }
+    ops.push(EXPIRE);
+    if rng.chance(1, 2) {
+        // 3x. the missing parent arrives within the horizon: chain a must connect (and win when heavier)
+        ops.push(t.pa);
+        ops.extend(&t.main[m2..]);
+        if rng.chance(1, 2) {
+            ops.push(EXPIRE);
+        }
+    } else {
+        // 3y. the main chain leaves the horizon of chain a: expire removes it (not the young chain b);
+        //     its parent then arrives, some of its blocks are delivered again
+        ops.extend(&t.main[m2..]);
+        ops.push(EXPIRE);
+        ops.push(t.pa);
+        let j = rng.range(1, t.a.len() as u64) as usize;
+        ops.extend(scramble(rng, &t.a[..j]));
+    }
+    // 4. chain b
+    if !b_early {
+        ops.extend(scramble(rng, &t.b));
+    }
+    if rng.chance(1, 2) {
+        ops.push(EXPIRE);
+    }
+    ops.push(t.pb);
+    if rng.chance(1, 2) {
+        ops.push(EXPIRE);
+    }
+    ops.into_iter().map(|x| if x == EXPIRE { Op::Expire } else { Op::Deliver(x) }).collect()
 }
 
 // ------------------------------------------------------------------------------------------------
@@ -1006,6 +1626,8 @@ fn parse_ids(s: &str) -> Vec<usize> {
 
 struct ReplayCase {
     run: CaseRun,
+    /// ids built with a slow timestamp (label `slow=<ids>`)
+    slow: HashSet<usize>,
     /// ids that some later `blk` line of the case names as parent
     parents: HashSet<usize>,
     builder: ChainBuilder,
@@ -1036,16 +1658,33 @@ fn replay(out: &mut Out, ops: &[String], builder_base: &Path, node_base: &Path) 
                     .collect();
                 finish(&mut cur, out);
                 cno += 1;
-                let el = label_num(&t[2..], "el=", 4).clamp(1, 1000);
                 let thr = label_num(&t[2..], "thr=", 2) as usize;
-                let cfg = NodeCfg { epoch_len: el, with_pool: false, ..Default::default() };
-                let consensus = make_consensus(&cfg);
+                let chain = if label_num(&t[2..], "uneven=", 0) == 1 {
+                    Chain::Uneven {
+                        t: label_num(&t[2..], "t=", 48).max(8),
+                        gl: label_num(&t[2..], "gl=", 3).max(1),
+                        d0: label_num(&t[2..], "d0=", 1_000_000).max(1),
+                    }
+                } else {
+                    Chain::Flat { el: label_num(&t[2..], "el=", 4).clamp(1, 1000) }
+                };
+                let slow: HashSet<usize> = t[2..].iter().find_map(|x| x.strip_prefix("slow=")).map(|l| parse_ids(l).into_iter().collect()).unwrap_or_default();
+                let family = if matches!(chain, Chain::Uneven { .. }) {
+                    "uneven"
+                } else if t[2..].contains(&"fam=expiry") {
+                    "expiry"
+                } else {
+                    "gen"
+                };
+                let cfg = chain.node_cfg();
+                let consensus = chain.consensus();
                 out.begin_case(&t[2..].join(" "));
                 let bdir = builder_base.join(format!("r{cno}"));
                 let mut builder = ChainBuilder::new(consensus.clone(), &bdir);
                 builder.max_branch_stores = 12;
-                let run = CaseRun::start(&node_base.join(format!("r{cno}")), &consensus, &cfg, thr);
-                cur = Some(ReplayCase { run, parents, builder, bdir });
+                let mut run = CaseRun::start(&node_base.join(format!("r{cno}")), &consensus, &cfg, thr);
+                run.family = family;
+                cur = Some(ReplayCase { run, slow, parents, builder, bdir });
             }
             "blk" => {
                 let rc = cur.as_mut().expect("blk before case");
@@ -1059,7 +1698,7 @@ fn replay(out: &mut Out, ops: &[String], builder_base: &Path, node_base: &Path) 
                 } else {
                     assert!(parent < id && rc.run.by_id.contains_key(&parent), "blk {id}: parent {parent} must be declared before and be smaller");
                     let p = rc.run.get(parent).clone();
-                    build_blk(&mut rc.builder, id, &p, Kind::from_flags(nc, ok), !rc.parents.contains(&id))
+                    build_blk_paced(&mut rc.builder, id, &p, Kind::from_flags(nc, ok), !rc.parents.contains(&id), rc.slow.contains(&id))
                 };
                 rc.run.declare(out, b);
             }
@@ -1073,6 +1712,10 @@ fn replay(out: &mut Out, ops: &[String], builder_base: &Path, node_base: &Path) 
                 let ids = parse_ids(t[1]);
                 assert!(!ids.is_empty(), "empty burst");
                 rc.run.burst(out, &ids);
+            }
+            "expire" => {
+                let rc = cur.as_mut().expect("expire before case");
+                rc.run.expire(out);
             }
             _ => panic!("bad replay op {line}"),
         }
